@@ -22,7 +22,9 @@ REJECT = (exc.PacketInvalid, ValueError)
 # array-capable codes: element size in bytes (from the statement's list)
 ARRAY_ELEM = {"0009": 3, "000A": 6, "2309": 3, "30C9": 3, "2249": 7, "22C9": 6, "3150": 2}
 ARRAY_SRC = {"0009": "01", "000A": "01", "2309": "01", "30C9": "01", "2249": "23", "22C9": "02", "3150": "02"}
-RATIO_KEYS = ("heat_demand", "relay_demand", "modulation_level", "valve_position", "rel_modulation_level")
+RATIO_KEYS = ("heat_demand", "relay_demand", "modulation_level", "valve_position", "rel_modulation_level", "air_quality",
+              "battery_level", "bypass_position", "exhaust_fan_speed", "supply_fan_speed", "indoor_humidity",
+              "outdoor_humidity", "max_rel_modulation", "post_heat", "pre_heat", "vent_demand", "percent_remaining", "demand")
 TEMP_KEYS = ("temperature", "setpoint", "heat_setpoint", "min_temp", "max_temp")
 
 
